@@ -2,11 +2,12 @@
 
 Each sub-builder stores its items in a container whose ITERATION ORDER is the order the body is emitted in:
   mint (BTreeMap keyed by policy id: sorted), inputs (BTreeMap keyed by outpoint: sorted), certificates (insertion order =
-  certificate sequence), votes (BTreeMap keyed by voter), proposals (BTreeMap), withdrawals (LinkedHashMap: insertion order).
+  certificate sequence), votes (BTreeMap keyed by voter), proposals (BTreeMap).
 The containers are abstract sequences in that order; the obligation is that every Plutus item gets the index of ITS OWN
 position among ALL items of that purpose (script or not), with the right tag, and non-script items get none.
-Known finding (not decided here, see known_findings.json): withdrawals iterate in insertion order, while the ledger
-indexes reward redeemers in reward-account order.
+Withdrawals are different: the builder keeps them in insertion order (LinkedHashMap) while the ledger indexes reward
+redeemers by the reward account's rank in its sorted withdrawals map; the obligation there is index == rank under the
+ledger's key order (network id, script credentials before key credentials, credential hash) for EVERY insertion order.
 """
 import itertools
 import z3
@@ -97,7 +98,6 @@ def obligations(ctx):
     # ------------------------------------------------------------------ certificates, withdrawals, votes: index = position in the emitted order
     cases = [
         ("certs", "CertificatesBuilder", "certs", "Cert", lambda E, j, w: VStruct("()", [VLazy("cert%d" % j, "Certificate"), w])),
-        ("withdrawals", "WithdrawalsBuilder", "withdrawals", "Reward", lambda E, j, w: VStruct("()", [VLazy("acct%d" % j, "RewardAddress"), VStruct("()", [VLazy("coin%d" % j, "BigNum"), w])])),
         ("votes", "VotingBuilder", "votes", "Vote", lambda E, j, w: VStruct("()", [VLazy("voter%d" % j, "Voter"), E.mk_struct("VoterVotes", script_witness=w, votes=VLazy("vv%d" % j, "BTreeMap<GovernanceActionId, VotingProcedure>"))])),
     ]
     for name, struct, fld, tag, mkitem in cases:
@@ -146,3 +146,136 @@ def obligations(ctx):
             check_positions(ob, o, list(pat), "item", "Spend", "inputs")
         agg.stats["paths"] += E.stats["paths"]; agg.stats["feasibility_queries"] += E.stats["feasibility_queries"]; agg.stats["functions"] |= E.stats["functions"]
     ob.finish(agg, lambda m, info=None: ("e2n_c10_pointers", []))
+
+
+    # ------------------------------------------------------------------ withdrawals: index = rank of the reward account in ledger key order
+    ob = Obligation(ctx, "c10_e2_withdrawals_redeemer_index", "1-%d withdrawals in arbitrary insertion order (every strict total order of the accounts is a solver-explored branch), every Plutus / native-script / key pattern" % maxn,
+                    ["WithdrawalsBuilder::get_plutus_witnesses"])
+    agg = Engine(P)
+    U = agg.U
+    lt = z3.Function("ledger_lt", U, U, z3.BoolSort())
+    for pat in [p for n in range(1, maxn + 1) for p in itertools.product("PNK", repeat=n)]:
+        E = Engine(P, max_loop=len(pat) * len(pat) + 4)
+        E.U = U
+        install_clone_recorders(E)
+        E.extra_intrinsics[r"(^|::)ledger_order_less$"] = lambda E_, c, a: VBool(lt(E_.as_u(VM.deref(E_, a[0])), E_.as_u(VM.deref(E_, a[1]))))
+        cell = {}
+        def mk(pat=pat, E=E, cell=cell):
+            items, us = [], []
+            for j, k in enumerate(pat):
+                w = opt(VEnum("ScriptWitnessType", "PlutusScriptWitness", [VLazy("item%d" % j, "PlutusWitness")])) if k == "P" else \
+                    (opt(VEnum("ScriptWitnessType", "NativeScriptWitness", [VLazy("ns%d" % j, "NativeScriptSourceEnum")])) if k == "N" else opt(None))
+                acct = VLazy("acct%d" % j, "RewardAddress")
+                us.append(E.as_u(acct))
+                items.append(VStruct("()", [acct, VStruct("()", [VLazy("coin%d" % j, "BigNum"), w])]))
+            # map keys are pairwise distinct accounts; ledger_lt is a strict total order on them
+            n = len(us)
+            for a in range(n):
+                E.pc.append(z3.Not(lt(us[a], us[a])))
+                for b in range(n):
+                    if a < b:
+                        E.pc.append(us[a] != us[b])
+                        E.pc.append(z3.Xor(lt(us[a], us[b]), lt(us[b], us[a])))
+                    for c_ in range(n):
+                        if len({a, b, c_}) == 3:
+                            E.pc.append(z3.Implies(z3.And(lt(us[a], us[b]), lt(us[b], us[c_])), lt(us[a], us[c_])))
+            cell["us"] = us
+            return [R(E.mk_struct("WithdrawalsBuilder", withdrawals=VSeq(items, "map")), "self")]
+        for o in E.explore("WithdrawalsBuilder::get_plutus_witnesses", mk, max_paths=400):
+            if o.kind != "return":
+                ob.vc("no panic (%s %s)" % (o.kind, o.msg), o.pc, z3.BoolVal(False)); continue
+            us = cell["us"]
+            clones = [t for t in o.trace if t[0] == "witness_clone"]
+            want = [j for j, k in enumerate(pat) if k == "P"]
+            if len(clones) != len(want):
+                ob.violation("withdrawals %s: %d redeemers for %d Plutus items" % ("".join(pat), len(clones), len(want))); continue
+            for t in clones:
+                j = int(t[1][len("item"):].split(".")[0]) if t[1].startswith("item") else None
+                if j is None or pat[j] != "P":
+                    ob.violation("withdrawals %s: redeemer attached to a non-Plutus item (%s)" % ("".join(pat), t[1])); continue
+                rank = z3.Sum([z3.If(lt(us[i], us[j]), 1, 0) for i in range(len(us))]) if len(us) > 1 else z3.IntVal(0)
+                ob.vc("withdrawals %s: redeemer of account %d carries the account's rank in ledger order" % ("".join(pat), j), o.pc, t[2] == rank)
+                if tag_name(t[3]) != "Reward":
+                    ob.violation("withdrawals: tag %s, expected Reward" % tag_name(t[3]))
+            if len(clones) > 1:
+                ob.vc("withdrawals %s: no two script uses share a pointer" % "".join(pat), o.pc, z3.Distinct(*[t[2] for t in clones]))
+        agg.stats["paths"] += E.stats["paths"]; agg.stats["feasibility_queries"] += E.stats["feasibility_queries"]; agg.stats["functions"] |= E.stats["functions"]
+    ob.finish(agg, lambda m, info=None: ("e2n_c10_pointers", []))
+
+    # ------------------------------------------------------------------ withdrawals: the emitted map is in the same (ledger) order, so index == position in the body
+    ob = Obligation(ctx, "c10_e2_withdrawals_emitted_in_ledger_order", "1-%d withdrawals in arbitrary insertion order" % maxn, ["WithdrawalsBuilder::build"])
+    agg = Engine(P)
+    for n in range(1, maxn + 1):
+        E = Engine(P, max_loop=n * n + 6)
+        E.U = U
+        E.extra_intrinsics[r"(^|::)ledger_order_less$"] = lambda E_, c, a: VBool(lt(E_.as_u(VM.deref(E_, a[0])), E_.as_u(VM.deref(E_, a[1]))))
+        cell = {}
+        def mk(n=n, E=E, cell=cell):
+            items, us = [], []
+            for j in range(n):
+                acct = VLazy("acct%d" % j, "RewardAddress")
+                us.append(E.as_u(acct))
+                items.append(VStruct("()", [acct, VStruct("()", [VLazy("coin%d" % j, "BigNum"), opt(None)])]))
+            for a in range(n):
+                E.pc.append(z3.Not(lt(us[a], us[a])))
+                for b in range(n):
+                    if a < b:
+                        E.pc.append(us[a] != us[b])
+                        E.pc.append(z3.Xor(lt(us[a], us[b]), lt(us[b], us[a])))
+                    for c_ in range(n):
+                        if len({a, b, c_}) == 3:
+                            E.pc.append(z3.Implies(z3.And(lt(us[a], us[b]), lt(us[b], us[c_])), lt(us[a], us[c_])))
+            cell["us"] = us
+            return [R(E.mk_struct("WithdrawalsBuilder", withdrawals=VSeq(items, "map")), "self")]
+        npaths = 0
+        for o in E.explore("WithdrawalsBuilder::build", mk, max_paths=400):
+            if o.kind != "return":
+                ob.vc("no panic (%s %s)" % (o.kind, o.msg), o.pc, z3.BoolVal(False)); continue
+            npaths += 1
+            E.enter(o)
+            seq = o.value.fields[0] if isinstance(o.value, (VStruct, VEnum)) and o.value.fields else None
+            seq = VM.deref(E, seq) if seq is not None else None
+            if not isinstance(seq, VSeq) or len(seq.items) != n:
+                ob.violation("build(): %d withdrawals emitted for %d added" % (len(seq.items) if isinstance(seq, VSeq) else -1, n)); continue
+            names = []
+            for it in seq.items:
+                k_, v_ = it.fields[0], it.fields[1]
+                names.append((k_.path if isinstance(k_, VLazy) else repr(k_), v_.path if isinstance(v_, VLazy) else repr(v_)))
+            if sorted(names) != sorted(("acct%d" % j, "coin%d" % j) for j in range(n)):
+                ob.violation("build(): emitted entries %s are not the added (account, coin) pairs" % names); continue
+            us = cell["us"]
+            order = [int(a[len("acct"):]) for a, _ in names]
+            if n > 1:
+                ob.vc("build(): %d withdrawals emitted in ledger key order (%s)" % (n, order), o.pc, z3.And([lt(us[order[i]], us[order[i + 1]]) for i in range(n - 1)]))
+        if npaths < [1, 1, 2, 6, 24][n]:
+            ob.fail("build() with %d withdrawals: only %d orderings explored" % (n, npaths))
+        agg.stats["paths"] += E.stats["paths"]; agg.stats["feasibility_queries"] += E.stats["feasibility_queries"]; agg.stats["functions"] |= E.stats["functions"]
+    ob.finish(agg, lambda m, info=None: ("e2n_c10_pointers", []))
+
+    # ------------------------------------------------------------------ the order itself: network id, script before key, credential hash
+    ob = Obligation(ctx, "c10_e2_reward_account_ledger_order", "two arbitrary reward accounts (network ids over all u8, both credential kinds, arbitrary hashes)", ["withdrawals_builder::ledger_order_less"])
+    E = Engine(P)
+    blt = z3.Function("bytes_lt", E.U, E.U, z3.BoolSort())
+    hashof = z3.Function("raw_bytes_of", E.U, E.U)
+    E.extra_intrinsics[r"Credential::to_raw_bytes$"] = lambda E_, c, a: VOpaque("raw", [], hashof(E_.as_u(VM.deref(E_, a[0]))))
+    E.extra_intrinsics[r"^<std::vec::Vec<u8> as (std::cmp::)?PartialOrd>::lt$"] = lambda E_, c, a: VBool(blt(E_.as_u(VM.deref(E_, a[0])), E_.as_u(VM.deref(E_, a[1]))))
+    n_paths = 0
+    for o in E.explore("ledger_order_less", lambda: [R(VLazy("a", "RewardAddress"), "a"), R(VLazy("b", "RewardAddress"), "b")], max_paths=64):
+        if o.kind != "return":
+            ob.vc("no panic (%s %s)" % (o.kind, o.msg), o.pc, z3.BoolVal(False)); continue
+        n_paths += 1
+        E.enter(o)
+        names = P.struct_fields["RewardAddress"]
+        fi_net, fi_cred = names.index("network"), names.index("payment")
+        script_idx = P.enum_variants["CredType"].index("Script")
+        def parts(x):
+            # lazily initialised arguments: fields are named after their access path (engine.materialize / force_enum)
+            net = z3.Int("%s.%d" % (x, fi_net))
+            is_script = z3.Int("%s.%d.0#d" % (x, fi_cred)) == script_idx
+            return net, is_script, hashof(E.as_u(VLazy("%s.%d" % (x, fi_cred), "Credential")))
+        pa, pb = parts("a"), parts("b")
+        spec = z3.If(pa[0] != pb[0], pa[0] < pb[0], z3.If(pa[1] != pb[1], pa[1], blt(pa[2], pb[2])))
+        ob.vc("ledger order: network id, then script before key, then hash (path %d)" % n_paths, o.pc, o.value.t == spec)
+    if n_paths < 5:
+        ob.fail("only %d comparator paths explored (expected: network differs, 4 credential-kind combinations)" % n_paths)
+    ob.finish(E)
